@@ -1590,6 +1590,10 @@ func interleave(r *ev.Run) int {
 	}
 	defer p.Close()
 	defer debug.SetGCPercent(debug.SetGCPercent(-1))
+	// one P: sync.Pool keeps a returned buffer in the per-P slot, so with a single P the
+	// next Get of that size class (session B's read) receives exactly the buffer session A
+	// returned, whichever goroutine runs it
+	defer runtime.GOMAXPROCS(runtime.GOMAXPROCS(1))
 	runtime.LockOSThread()
 	defer runtime.UnlockOSThread()
 	build := func(salt []byte) []byte {
